@@ -1,6 +1,1054 @@
-//! C08 — not built yet.
+//! C08 — filter text and filter tree correspond: print-then-parse is the identity.
+//!
+//! Exchange syntax of filter trees (tokens, strings hex-encoded as in VX):
+//!   F    ::= or k (and k TERM*k)*k
+//!   TERM ::= par F | has P | miss P | isa H | weq P H(id) H(dis)|- | rel H H|- (- | r H(id) H(dis)|-) | cmp OP P V
+//!   P    ::= k H*k        OP ::= eq|ne|lt|le|gt|ge        V = VX value
+//!
+//! input: `<mode> …`
+//!   rt F          well-formed tree: `Filter::try_from(f.to_string())` must give back `f` (Rust `==`, every
+//!                 component incl. Ref display names of comparison literals, and the re-printed text);
+//!                 `Visitor` traversal of the parsed filter must match the tree
+//!                 -> `C08 print F`, `C08 parse H(text)`
+//!   sp SEED F     a spelling of `f` written from the filter grammar (random legal spacing, line breaks,
+//!                 redundant parentheses; the expected tree carries the added groups) must parse to the tree
+//!                 -> `C08 parse H(text)`
+//!   pr F          arbitrary constructible tree (any literal kind): model fidelity of `to_string` only
+//!                 -> `C08 print F`
+//!   tx H(text)    arbitrary (mutated / invalid) text: outcome and tree -> `C08 parse H(text)`; when it
+//!                 parses, printing and re-parsing the result must be stable
+
 use crate::ctx::{CaseOut, Ctx};
+use crate::gen::{self, Cfg};
+use crate::rng::Rng;
+use crate::same;
+use crate::vx::{self, Rd};
+use libhaystack::filter::nodes::*;
+use libhaystack::filter::path::Path;
+use libhaystack::filter::Filter;
+use libhaystack::val::*;
 
-pub fn exec(_label: &str, _input: &str, _out: &mut CaseOut) {}
+/// The harness's own filter tree (what is generated, exchanged and compared).
+#[derive(Clone, Debug)]
+pub enum T {
+    Par(F),
+    Has(Vec<String>),
+    Miss(Vec<String>),
+    IsA(String),
+    Weq(Vec<String>, String, Option<String>),
+    Rel(String, Option<String>, Option<(String, Option<String>)>),
+    Cmp(String, Vec<String>, Value),
+}
+pub type F = Vec<Vec<T>>;
 
-pub fn generate(_ctx: &mut Ctx) {}
+pub const OPS: &[&str] = &["eq", "ne", "lt", "le", "gt", "ge"];
+
+fn w_path(p: &[String], out: &mut Vec<String>) {
+    out.push(p.len().to_string());
+    for s in p {
+        out.push(vx::h(s));
+    }
+}
+
+pub fn w_f(f: &F, out: &mut Vec<String>) {
+    out.push("or".into());
+    out.push(f.len().to_string());
+    for a in f {
+        out.push("and".into());
+        out.push(a.len().to_string());
+        for t in a {
+            w_t(t, out);
+        }
+    }
+}
+
+pub fn w_t(t: &T, out: &mut Vec<String>) {
+    match t {
+        T::Par(f) => {
+            out.push("par".into());
+            w_f(f, out);
+        }
+        T::Has(p) => {
+            out.push("has".into());
+            w_path(p, out);
+        }
+        T::Miss(p) => {
+            out.push("miss".into());
+            w_path(p, out);
+        }
+        T::IsA(s) => {
+            out.push("isa".into());
+            out.push(vx::h(s));
+        }
+        T::Weq(p, id, dis) => {
+            out.push("weq".into());
+            w_path(p, out);
+            out.push(vx::h(id));
+            out.push(vx::ho(dis));
+        }
+        T::Rel(r, t, rf) => {
+            out.push("rel".into());
+            out.push(vx::h(r));
+            out.push(vx::ho(t));
+            match rf {
+                None => out.push("-".into()),
+                Some((id, dis)) => {
+                    out.push("r".into());
+                    out.push(vx::h(id));
+                    out.push(vx::ho(dis));
+                }
+            }
+        }
+        T::Cmp(op, p, v) => {
+            out.push("cmp".into());
+            out.push(op.clone());
+            w_path(p, out);
+            vx::w_val(v, out);
+        }
+    }
+}
+
+pub fn show_f(f: &F) -> String {
+    let mut out = Vec::new();
+    w_f(f, &mut out);
+    out.join(" ")
+}
+
+fn p_path(rd: &mut Rd) -> Option<Vec<String>> {
+    let k: usize = rd.num()?;
+    let mut v = Vec::new();
+    for _ in 0..k {
+        v.push(rd.hs()?);
+    }
+    Some(v)
+}
+
+pub fn p_f(rd: &mut Rd) -> Option<F> {
+    if rd.tok()? != "or" {
+        return None;
+    }
+    let k: usize = rd.num()?;
+    let mut f = Vec::new();
+    for _ in 0..k {
+        if rd.tok()? != "and" {
+            return None;
+        }
+        let n: usize = rd.num()?;
+        let mut a = Vec::new();
+        for _ in 0..n {
+            a.push(p_t(rd)?);
+        }
+        f.push(a);
+    }
+    Some(f)
+}
+
+pub fn p_t(rd: &mut Rd) -> Option<T> {
+    Some(match rd.tok()? {
+        "par" => T::Par(p_f(rd)?),
+        "has" => T::Has(p_path(rd)?),
+        "miss" => T::Miss(p_path(rd)?),
+        "isa" => T::IsA(rd.hs()?),
+        "weq" => {
+            let p = p_path(rd)?;
+            let id = rd.hs()?;
+            let dis = rd.hos()?;
+            T::Weq(p, id, dis)
+        }
+        "rel" => {
+            let r = rd.hs()?;
+            let t = rd.hos()?;
+            let rf = match rd.tok()? {
+                "-" => None,
+                "r" => {
+                    let id = rd.hs()?;
+                    let dis = rd.hos()?;
+                    Some((id, dis))
+                }
+                _ => return None,
+            };
+            T::Rel(r, t, rf)
+        }
+        "cmp" => {
+            let op = rd.tok()?.to_string();
+            if !OPS.contains(&op.as_str()) {
+                return None;
+            }
+            let p = p_path(rd)?;
+            let v = rd.val()?;
+            T::Cmp(op, p, v)
+        }
+        _ => return None,
+    })
+}
+
+/// `Path` of several segments: `Id` cannot be named outside the crate, but its values can be moved
+pub fn mk_path(segs: &[String]) -> Path {
+    let mut ids = Vec::new();
+    for s in segs {
+        let p = Path::from(s.as_str());
+        ids.extend(p.iter().cloned());
+    }
+    Path::from(ids)
+}
+
+pub fn path_segs(p: &Path) -> Vec<String> {
+    p.iter().map(|id| id.to_string()).collect()
+}
+
+pub fn mk_op(op: &str) -> CmpOp {
+    match op {
+        "eq" => CmpOp::Eq,
+        "ne" => CmpOp::NotEq,
+        "lt" => CmpOp::LessThan,
+        "le" => CmpOp::LessThanEq,
+        "gt" => CmpOp::GreatThan,
+        _ => CmpOp::GreatThanEq,
+    }
+}
+pub fn op_name(op: &CmpOp) -> &'static str {
+    match op {
+        CmpOp::Eq => "eq",
+        CmpOp::NotEq => "ne",
+        CmpOp::LessThan => "lt",
+        CmpOp::LessThanEq => "le",
+        CmpOp::GreatThan => "gt",
+        CmpOp::GreatThanEq => "ge",
+    }
+}
+
+pub fn to_or(f: &F) -> Or {
+    Or { ands: f.iter().map(|a| And { terms: a.iter().map(to_term).collect() }).collect() }
+}
+
+pub fn to_term(t: &T) -> Term {
+    match t {
+        T::Par(f) => Term::Parens(Parens { or: to_or(f) }),
+        T::Has(p) => Term::Has(Has { path: mk_path(p) }),
+        T::Miss(p) => Term::Missing(Missing { path: mk_path(p) }),
+        T::IsA(s) => Term::IsA(IsA { symbol: Symbol { value: s.clone() } }),
+        T::Weq(p, id, dis) => Term::WildcardEq(WildcardEq { id: mk_path(p), ref_value: Ref { value: id.clone(), dis: dis.clone() } }),
+        T::Rel(r, t, rf) => Term::Relation(Relation {
+            rel: Symbol { value: r.clone() },
+            rel_term: t.as_ref().map(|t| Symbol { value: t.clone() }),
+            ref_value: rf.as_ref().map(|(id, dis)| Ref { value: id.clone(), dis: dis.clone() }),
+        }),
+        T::Cmp(op, p, v) => Term::Cmp(Cmp { path: mk_path(p), op: mk_op(op), value: v.clone() }),
+    }
+}
+
+pub fn to_filter(f: &F) -> Filter {
+    Filter { or: to_or(f) }
+}
+
+pub fn from_or(o: &Or) -> F {
+    o.ands.iter().map(|a| a.terms.iter().map(from_term).collect()).collect()
+}
+
+pub fn from_term(t: &Term) -> T {
+    match t {
+        Term::Parens(p) => T::Par(from_or(&p.or)),
+        Term::Has(h) => T::Has(path_segs(&h.path)),
+        Term::Missing(m) => T::Miss(path_segs(&m.path)),
+        Term::IsA(i) => T::IsA(i.symbol.value.clone()),
+        Term::WildcardEq(w) => T::Weq(path_segs(&w.id), w.ref_value.value.clone(), w.ref_value.dis.clone()),
+        Term::Relation(r) => T::Rel(
+            r.rel.value.clone(),
+            r.rel_term.as_ref().map(|s| s.value.clone()),
+            r.ref_value.as_ref().map(|r| (r.value.clone(), r.dis.clone())),
+        ),
+        Term::Cmp(c) => T::Cmp(op_name(&c.op).to_string(), path_segs(&c.path), c.value.clone()),
+    }
+}
+
+/// What `parse(print f)` must be: the tree itself, except that `Display for Ref` (used for the Ref
+/// operand of `*==` and of a relation) does not print the display name, which `==` on Ref ignores.
+pub fn image(f: &F) -> F {
+    f.iter()
+        .map(|a| {
+            a.iter()
+                .map(|t| match t {
+                    T::Par(g) => T::Par(image(g)),
+                    T::Weq(p, id, _) => T::Weq(p.clone(), id.clone(), None),
+                    T::Rel(r, t, rf) => T::Rel(r.clone(), t.clone(), rf.as_ref().map(|(id, _)| (id.clone(), None))),
+                    other => other.clone(),
+                })
+                .collect()
+        })
+        .collect()
+}
+
+/// first difference between the expected tree and the one that came back, every component compared
+pub fn diff_f(a: &F, b: &F, at: &str) -> Option<String> {
+    if a.len() != b.len() {
+        return Some(format!("{at}: {} or-branches became {}", a.len(), b.len()));
+    }
+    for (i, (x, y)) in a.iter().zip(b.iter()).enumerate() {
+        if x.len() != y.len() {
+            return Some(format!("{at}.or[{i}]: {} terms became {}", x.len(), y.len()));
+        }
+        for (j, (s, t)) in x.iter().zip(y.iter()).enumerate() {
+            let here = format!("{at}.or[{i}].and[{j}]");
+            let d = match (s, t) {
+                (T::Par(f), T::Par(g)) => diff_f(f, g, &here),
+                (T::Has(p), T::Has(q)) | (T::Miss(p), T::Miss(q)) if p == q => None,
+                (T::IsA(p), T::IsA(q)) if p == q => None,
+                (T::Weq(p, i1, d1), T::Weq(q, i2, d2)) if p == q && i1 == i2 && d1 == d2 => None,
+                (T::Rel(r1, t1, f1), T::Rel(r2, t2, f2)) if r1 == r2 && t1 == t2 && f1 == f2 => None,
+                (T::Cmp(o1, p, v), T::Cmp(o2, q, w)) if o1 == o2 && p == q => same::diff(v, w, &format!("{here}.value")),
+                _ => {
+                    let mut o1 = Vec::new();
+                    w_t(s, &mut o1);
+                    let mut o2 = Vec::new();
+                    w_t(t, &mut o2);
+                    Some(format!("{here}: term [{}] became [{}]", o1.join(" "), o2.join(" ")))
+                }
+            };
+            if d.is_some() {
+                return d;
+            }
+        }
+    }
+    None
+}
+
+/// pre-order trace of a tree, as a descending `Visitor` must see it
+pub fn trace_f(f: &F, out: &mut Vec<String>) {
+    out.push(format!("or{}", f.len()));
+    for a in f {
+        out.push(format!("and{}", a.len()));
+        for t in a {
+            match t {
+                T::Par(g) => {
+                    out.push("par".into());
+                    trace_f(g, out);
+                }
+                T::Has(p) => out.push(format!("has:{}", p.join("/"))),
+                T::Miss(p) => out.push(format!("miss:{}", p.join("/"))),
+                T::IsA(s) => out.push(format!("isa:{s}")),
+                T::Weq(p, id, _) => out.push(format!("weq:{}:{id}", p.join("/"))),
+                T::Rel(r, t, rf) => out.push(format!("rel:{r}:{t:?}:{:?}", rf.as_ref().map(|x| x.0.clone()))),
+                T::Cmp(op, p, v) => out.push(format!("cmp:{op}:{}:{}", p.join("/"), vx::show(v))),
+            }
+        }
+    }
+}
+
+pub struct Tracer(pub Vec<String>);
+impl Visitor for Tracer {
+    fn visit_cond_or(&mut self, node: &Or) {
+        self.0.push(format!("or{}", node.ands.len()));
+        for a in &node.ands {
+            a.accept_visitor(self);
+        }
+    }
+    fn visit_cond_and(&mut self, node: &And) {
+        self.0.push(format!("and{}", node.terms.len()));
+        for t in &node.terms {
+            t.accept_visitor(self);
+        }
+    }
+    fn visit_parens(&mut self, node: &Parens) {
+        self.0.push("par".into());
+        node.or.accept_visitor(self);
+    }
+    fn visit_has(&mut self, node: &Has) {
+        self.0.push(format!("has:{}", path_segs(&node.path).join("/")));
+    }
+    fn visit_missing(&mut self, node: &Missing) {
+        self.0.push(format!("miss:{}", path_segs(&node.path).join("/")));
+    }
+    fn visit_is_a(&mut self, node: &IsA) {
+        self.0.push(format!("isa:{}", node.symbol.value));
+    }
+    fn visit_wildcard_equals(&mut self, node: &WildcardEq) {
+        self.0.push(format!("weq:{}:{}", path_segs(&node.id).join("/"), node.ref_value.value));
+    }
+    fn visit_relation(&mut self, node: &Relation) {
+        self.0.push(format!(
+            "rel:{}:{:?}:{:?}",
+            node.rel.value,
+            node.rel_term.as_ref().map(|s| s.value.clone()),
+            node.ref_value.as_ref().map(|r| r.value.clone())
+        ));
+    }
+    fn visit_cmp(&mut self, node: &Cmp) {
+        self.0.push(format!("cmp:{}:{}:{}", op_name(&node.op), path_segs(&node.path).join("/"), vx::show(&node.value)));
+    }
+}
+
+pub fn parse_reply(text: &str) -> (String, Option<Filter>) {
+    match Filter::try_from(text) {
+        Ok(g) => (format!("ok {}", show_f(&from_or(&g.or))), Some(g)),
+        Err(_) => ("err".into(), None),
+    }
+}
+
+// ------------------------------------------------------------------------------------------------
+// generators
+// ------------------------------------------------------------------------------------------------
+
+/// a tag name; the words the parser treats specially appear as ordinary names too (`not` alone is
+/// the one name the syntax cannot express: it is the prefix operator)
+pub fn seg(rng: &mut Rng) -> String {
+    if rng.chance(1, 8) {
+        return rng.pick(&["and", "or", "true", "false", "nota", "order", "android", "orx", "not_", "notA", "e", "inf", "nan", "t", "z"]).to_string();
+    }
+    gen::ident(rng)
+}
+
+pub fn path(rng: &mut Rng) -> Vec<String> {
+    let n = match rng.below(8) {
+        0..=3 => 1,
+        4 | 5 => 2,
+        6 => 3,
+        _ => 4,
+    };
+    let mut p: Vec<String> = (0..n).map(|_| seg(rng)).collect();
+    if n > 1 && rng.chance(1, 6) {
+        let i = rng.below(n as u64) as usize;
+        p[i] = "not".into();
+    }
+    p
+}
+
+/// a literal of a kind the filter syntax admits
+pub fn literal(rng: &mut Rng) -> Value {
+    let mut cfg = Cfg::wf(0);
+    cfg.allow_nan = false;
+    cfg.allow_inf = false;
+    match rng.below(10) {
+        0 => Value::make_bool(rng.chance(1, 2)),
+        1 | 2 => Value::Number(gen::number(rng, &cfg)),
+        3 => Value::Str(Str { value: gen::text(rng) }),
+        4 => Value::Uri(Uri { value: gen::uri_text(rng, true) }),
+        5 => {
+            let dis = if rng.chance(1, 2) { Some(gen::text(rng)) } else { None };
+            Value::Ref(Ref { value: gen::ref_id(rng), dis })
+        }
+        6 => Value::Symbol(Symbol { value: gen::symbol_body(rng) }),
+        7 => Value::Date(Date::from(gen::date(rng))),
+        8 => Value::Time(Time::from(gen::time(rng))),
+        _ => Value::DateTime(gen::datetime(rng, &cfg)),
+    }
+}
+
+pub fn opt_ref(rng: &mut Rng) -> (String, Option<String>) {
+    (gen::ref_id(rng), if rng.chance(1, 3) { Some(gen::text(rng)) } else { None })
+}
+
+pub fn term(rng: &mut Rng, depth: u32, lit: &dyn Fn(&mut Rng) -> Value) -> T {
+    let k = if depth == 0 { 1 + rng.below(8) } else { rng.below(9) };
+    match k {
+        0 => T::Par(tree(rng, depth - 1, lit)),
+        1 | 2 => T::Has(path(rng)),
+        3 => T::Miss(path(rng)),
+        4 => T::IsA(gen::symbol_body(rng)),
+        5 => {
+            let (id, dis) = opt_ref(rng);
+            T::Weq(path(rng), id, dis)
+        }
+        6 => {
+            let t = if rng.chance(1, 2) { Some(gen::symbol_body(rng)) } else { None };
+            let rf = if rng.chance(1, 2) { Some(opt_ref(rng)) } else { None };
+            T::Rel(seg(rng), t, rf)
+        }
+        _ => T::Cmp(rng.pick(OPS).to_string(), path(rng), lit(rng)),
+    }
+}
+
+pub fn tree(rng: &mut Rng, depth: u32, lit: &dyn Fn(&mut Rng) -> Value) -> F {
+    let n_or = match rng.below(6) {
+        0..=2 => 1,
+        3 | 4 => 2,
+        _ => 3,
+    };
+    (0..n_or)
+        .map(|_| {
+            let n_and = match rng.below(6) {
+                0..=2 => 1,
+                3 | 4 => 2,
+                _ => 3,
+            };
+            (0..n_and).map(|_| term(rng, depth, lit)).collect()
+        })
+        .collect()
+}
+
+pub fn nest(f: F, levels: usize) -> F {
+    let mut cur = f;
+    for _ in 0..levels {
+        cur = vec![vec![T::Par(cur)]];
+    }
+    cur
+}
+
+// ------------------------------------------------------------------------------------------------
+// reference spelling, written from the filter grammar
+//   filter := or ;  or := and ("or" and)* ;  and := term ("and" term)* ;
+//   term := "(" or ")" | path | "not" path | "^" symbol | path "*==" ref | name "?" ["^" symbol] [ref]
+//         | path cmpOp literal ;   path := name ("->" name)*
+// White space (space, tab, CR, LF) may surround every token; it is required only between two
+// tokens that would otherwise run together (name/keyword/number/ref/symbol next to one another).
+// A Ref's display name follows its id after exactly one space (Zinc), a timestamp's zone name too.
+// ------------------------------------------------------------------------------------------------
+
+fn ws(rng: &mut Rng, required: bool) -> String {
+    let n = if required { 1 + rng.below(3) } else { rng.below(3) };
+    let mut s = String::new();
+    for _ in 0..n {
+        s.push_str(match rng.below(8) {
+            0 => "\n",
+            1 => "\t",
+            2 => "\r\n",
+            3 => "  ",
+            _ => " ",
+        });
+    }
+    s
+}
+
+fn spell_path(rng: &mut Rng, p: &[String]) -> String {
+    let mut s = String::new();
+    for (i, seg) in p.iter().enumerate() {
+        if i > 0 {
+            if rng.chance(1, 4) {
+                s.push_str(&ws(rng, false));
+                s.push_str("->");
+                s.push_str(&ws(rng, false));
+            } else {
+                s.push_str("->");
+            }
+        }
+        s.push_str(seg);
+    }
+    s
+}
+
+fn op_text(op: &str) -> &'static str {
+    match op {
+        "eq" => "==",
+        "ne" => "!=",
+        "lt" => "<",
+        "le" => "<=",
+        "gt" => ">",
+        _ => ">=",
+    }
+}
+
+/// the literal's own spelling is the Zinc one (booleans: `true` / `false`)
+fn spell_literal(v: &Value) -> String {
+    format!("{v}")
+}
+
+/// Spelling of a term; `tight_end` = the text ends with a character after which a name may follow
+/// without white space (a closing quote, backtick or parenthesis).
+fn spell_term(rng: &mut Rng, t: &T, out: &mut String, expect: &mut Vec<T>) -> bool {
+    // redundant parentheses around the term: the tree gains a group
+    if rng.chance(1, 10) {
+        out.push('(');
+        out.push_str(&ws(rng, false));
+        let mut inner = Vec::new();
+        spell_term(rng, t, out, &mut inner);
+        out.push_str(&ws(rng, false));
+        out.push(')');
+        expect.push(T::Par(vec![inner]));
+        return true;
+    }
+    match t {
+        T::Par(f) => {
+            out.push('(');
+            out.push_str(&ws(rng, false));
+            let (txt, g) = spell(rng, f);
+            out.push_str(&txt);
+            out.push_str(&ws(rng, false));
+            out.push(')');
+            expect.push(T::Par(g));
+            true
+        }
+        T::Has(p) => {
+            out.push_str(&spell_path(rng, p));
+            expect.push(t.clone());
+            false
+        }
+        T::Miss(p) => {
+            out.push_str("not");
+            out.push_str(&ws(rng, true));
+            out.push_str(&spell_path(rng, p));
+            expect.push(t.clone());
+            false
+        }
+        T::IsA(s) => {
+            out.push('^');
+            out.push_str(s);
+            expect.push(t.clone());
+            false
+        }
+        T::Weq(p, id, dis) => {
+            out.push_str(&spell_path(rng, p));
+            out.push_str(&ws(rng, false));
+            out.push_str("*==");
+            out.push_str(&ws(rng, false));
+            out.push('@');
+            out.push_str(id);
+            let _ = dis;
+            expect.push(T::Weq(p.clone(), id.clone(), None));
+            false
+        }
+        T::Rel(r, st, rf) => {
+            out.push_str(r);
+            out.push('?');
+            if let Some(st) = st {
+                out.push_str(&ws(rng, false));
+                out.push('^');
+                out.push_str(st);
+            }
+            if let Some((id, _)) = rf {
+                out.push_str(&ws(rng, false));
+                out.push('@');
+                out.push_str(id);
+            }
+            expect.push(T::Rel(r.clone(), st.clone(), rf.as_ref().map(|(id, _)| (id.clone(), None))));
+            false
+        }
+        T::Cmp(op, p, v) => {
+            out.push_str(&spell_path(rng, p));
+            out.push_str(&ws(rng, false));
+            out.push_str(op_text(op));
+            out.push_str(&ws(rng, false));
+            let lit = spell_literal(v);
+            out.push_str(&lit);
+            expect.push(t.clone());
+            matches!(v, Value::Str(_) | Value::Uri(_)) || matches!(v, Value::Ref(r) if r.dis.is_some())
+        }
+    }
+}
+
+pub fn spell(rng: &mut Rng, f: &F) -> (String, F) {
+    let mut out = String::new();
+    let mut expect: F = Vec::new();
+    for (i, a) in f.iter().enumerate() {
+        let mut tight = true;
+        if i > 0 {
+            // the previous term's end decides whether white space is required before `or`
+            out.push_str("or");
+        }
+        let mut terms = Vec::new();
+        for (j, t) in a.iter().enumerate() {
+            if i > 0 || j > 0 {
+                // after the keyword: required unless a parenthesis follows
+                let mut probe = String::new();
+                let mut ptree = Vec::new();
+                let mut fork = rng.fork();
+                let end_tight = spell_term(&mut fork, t, &mut probe, &mut ptree);
+                let starts_paren = probe.starts_with('(');
+                out.push_str(&ws(rng, !starts_paren));
+                out.push_str(&probe);
+                terms.extend(ptree);
+                tight = end_tight;
+            } else {
+                tight = spell_term(rng, t, &mut out, &mut terms);
+            }
+            if j + 1 < a.len() {
+                out.push_str(&ws(rng, !tight));
+                out.push_str("and");
+            }
+        }
+        if i + 1 < f.len() {
+            out.push_str(&ws(rng, !tight));
+        }
+        expect.push(terms);
+    }
+    (out, expect)
+}
+
+pub fn spell_top(rng: &mut Rng, f: &F) -> (String, F) {
+    let lead = ws(rng, false);
+    let (body, g) = spell(rng, f);
+    let mut text = format!("{lead}{body}");
+    if rng.chance(1, 2) {
+        text.push_str(&ws(rng, false));
+    }
+    (text, g)
+}
+
+/// does the text of the tree end with a Ref that has no display name?
+pub fn ends_with_bare_ref(f: &F) -> bool {
+    match f.last().and_then(|a| a.last()) {
+        Some(T::Weq(..)) => true,
+        Some(T::Rel(_, _, Some(_))) => true,
+        Some(T::Cmp(_, _, Value::Ref(r))) => r.dis.is_none(),
+        _ => false,
+    }
+}
+
+// ------------------------------------------------------------------------------------------------
+// exec
+// ------------------------------------------------------------------------------------------------
+
+fn kind_of(t: &T) -> &'static str {
+    match t {
+        T::Par(_) => "par",
+        T::Has(_) => "has",
+        T::Miss(_) => "miss",
+        T::IsA(_) => "isa",
+        T::Weq(..) => "weq",
+        T::Rel(..) => "rel",
+        T::Cmp(..) => "cmp",
+    }
+}
+
+fn stats_f(f: &F, out: &mut CaseOut, depth: usize) -> usize {
+    let mut d = depth;
+    for a in f {
+        for t in a {
+            out.stat(&format!("term:{}", kind_of(t)));
+            match t {
+                T::Par(g) => d = d.max(stats_f(g, out, depth + 1)),
+                T::Cmp(_, _, v) => out.stat(&format!("lit:{}", crate::c01::kind_name(v))),
+                _ => {}
+            }
+        }
+    }
+    d
+}
+
+/// compare a parsed filter with the tree it must be
+fn check_tree(what: &str, expect: &F, got: &Filter, out: &mut CaseOut) {
+    let back = from_or(&got.or);
+    if let Some(d) = diff_f(expect, &back, "f") {
+        out.fail(&format!("{what}_mismatch"), d);
+    }
+    let mut want = Vec::new();
+    trace_f(expect, &mut want);
+    let mut tr = Tracer(Vec::new());
+    got.accept_visitor(&mut tr);
+    if want != tr.0 {
+        let i = want.iter().zip(tr.0.iter()).position(|(a, b)| a != b).unwrap_or(want.len().min(tr.0.len()));
+        out.fail(
+            "visitor_mismatch",
+            format!("visit #{i}: expected {:?}, visitor saw {:?}", want.get(i), tr.0.get(i)),
+        );
+    }
+}
+
+pub fn exec(label: &str, input: &str, out: &mut CaseOut) {
+    let (mode, rest) = input.split_once(' ').unwrap_or((input, ""));
+    match mode {
+        "rt" | "pr" => {
+            let mut rd = Rd::new(rest);
+            let f = match p_f(&mut rd) {
+                Some(f) if rd.done() => f,
+                _ => {
+                    out.fail("harness", "unparsable tree".into());
+                    return;
+                }
+            };
+            out.nontrivial = true;
+            let d = stats_f(&f, out, 0);
+            out.stat(&format!("nesting:{}", d.min(9)));
+            let filter = to_filter(&f);
+            let text = filter.to_string();
+            out.req(format!("C08 print {rest}"), format!("ok {}", vx::h(&text)));
+            if mode == "pr" {
+                return;
+            }
+            let (reply, back) = parse_reply(&text);
+            out.req(format!("C08 parse {}", vx::h(&text)), reply);
+            match back {
+                None => out.fail("rt_parse_err", format!("the parser rejects the printer's output {text:?}")),
+                Some(g) => {
+                    if g != filter {
+                        out.fail("rt_mismatch", format!("parse(print f) != f   (text {text:?})"));
+                    }
+                    let again = g.to_string();
+                    if again != text {
+                        out.fail("rt_reprint", format!("{text:?} re-prints as {again:?}"));
+                    }
+                    check_tree("rt_tree", &image(&f), &g, out);
+                }
+            }
+        }
+        "sp" => {
+            let (seed, tree) = rest.split_once(' ').unwrap_or(("0", rest));
+            let mut rd = Rd::new(tree);
+            let f = match p_f(&mut rd) {
+                Some(f) if rd.done() => f,
+                _ => {
+                    out.fail("harness", "unparsable tree".into());
+                    return;
+                }
+            };
+            out.nontrivial = true;
+            let mut rng = Rng::new(seed.parse().unwrap_or(0));
+            let (text, expect) = if label.starts_with("sp:trailing") {
+                // exactly one space after the last token (was a parse error after a bare Ref: fixed 16fcdf0)
+                let (body, g) = spell(&mut rng, &f);
+                (format!("{body} "), g)
+            } else {
+                spell_top(&mut rng, &f)
+            };
+            out.stat("spelling");
+            let (reply, back) = parse_reply(&text);
+            if text.len() <= 4000 {
+                out.req(format!("C08 parse {}", vx::h(&text)), reply);
+            }
+            match back {
+                None => out.fail("spell_parse_err", format!("the parser rejects the spelling {text:?}")),
+                Some(g) => check_tree("spell_tree", &expect, &g, out),
+            }
+        }
+        "tx" => {
+            let bytes = match vx::unhex(rest.trim()) {
+                Some(b) => b,
+                None => {
+                    out.fail("harness", "unparsable hex".into());
+                    return;
+                }
+            };
+            let text = match String::from_utf8(bytes) {
+                Ok(t) => t,
+                Err(_) => {
+                    out.fail("harness", "tx input must be UTF-8".into());
+                    return;
+                }
+            };
+            out.nontrivial = !text.is_empty();
+            let (reply, back) = parse_reply(&text);
+            out.stat(if back.is_some() { "tx:ok" } else { "tx:err" });
+            out.req(format!("C08 parse {}", vx::h(&text)), reply);
+            if let Some(g) = back {
+                // printing any filter and parsing the result gives an equal filter
+                let printed = g.to_string();
+                match Filter::try_from(printed.as_str()) {
+                    Err(_) => out.fail("reprint_parse_err", format!("{text:?} parses, its printed form {printed:?} does not")),
+                    Ok(h) => {
+                        if h != g {
+                            out.fail("reprint_mismatch", format!("{text:?} prints as {printed:?}, which parses to a different filter"));
+                        } else if h.to_string() != printed {
+                            out.fail("reprint_unstable", format!("{printed:?} re-prints as {:?}", h.to_string()));
+                        }
+                    }
+                }
+            }
+        }
+        _ => out.fail("harness", format!("unknown mode {mode}")),
+    }
+}
+
+pub fn mutate_text(rng: &mut Rng, s: &str) -> String {
+    const SPLICE: &[&str] = &[
+        " and ", " or ", "not ", "(", ")", "->", "-", ">", "==", "!=", "<", "<=", ">=", "*==", "?", "^", "@", "\"", "`", " ", "\n", "a", "and", "or", "not",
+        "true", "1", "1e", "5kW", "2021-01-01", "12:00:00", "T", "Z", "\\", "!", "=", "*", "x->y", "@r \"d\"", "^s", "é", "_", ".", ":",
+    ];
+    let mut cs: Vec<char> = s.chars().collect();
+    if cs.is_empty() {
+        return rng.pick(SPLICE).to_string();
+    }
+    let i = rng.below(cs.len() as u64) as usize;
+    match rng.below(6) {
+        0 => {
+            cs.remove(i);
+        }
+        1 => {
+            let c = cs[i];
+            cs.insert(i, c);
+        }
+        2 => {
+            let t: Vec<char> = rng.pick(SPLICE).chars().collect();
+            for (k, c) in t.into_iter().enumerate() {
+                cs.insert(i + k, c);
+            }
+        }
+        3 => {
+            let t: Vec<char> = rng.pick(SPLICE).chars().collect();
+            cs.remove(i);
+            for (k, c) in t.into_iter().enumerate() {
+                cs.insert(i + k, c);
+            }
+        }
+        4 => {
+            let n = (1 + rng.below(5) as usize).min(cs.len() - i);
+            cs.drain(i..i + n);
+        }
+        _ => {
+            let j = rng.below(cs.len() as u64) as usize;
+            cs.swap(i, j);
+        }
+    }
+    cs.into_iter().collect()
+}
+
+/// small universe for the exhaustive part: every tree with up to `max_terms` terms
+fn enumerate_trees(max_terms: usize) -> Vec<F> {
+    let atoms: Vec<T> = vec![
+        T::Has(vec!["a".into()]),
+        T::Has(vec!["d".into(), "b".into()]),
+        T::Miss(vec!["c".into()]),
+        T::Cmp("eq".into(), vec!["x".into(), "y".into()], Value::make_bool(true)),
+        T::Cmp("lt".into(), vec!["n".into()], Value::Number(Number { value: 5.0, unit: None })),
+        T::IsA("site".into()),
+        T::Rel("inputs".into(), Some("air".into()), None),
+        T::Weq(vec!["r".into()], "x".into(), None),
+    ];
+    // shapes: compositions of k terms into or/and groups, each term an atom or a group of smaller trees
+    fn shapes(k: usize) -> Vec<Vec<usize>> {
+        // ordered partitions of k
+        if k == 0 {
+            return vec![vec![]];
+        }
+        let mut out = Vec::new();
+        for first in 1..=k {
+            for mut rest in shapes(k - first) {
+                let mut v = vec![first];
+                v.append(&mut rest);
+                out.push(v);
+            }
+        }
+        out
+    }
+    let mut all: Vec<F> = Vec::new();
+    let mut counter = 0usize;
+    for k in 1..=max_terms {
+        for shape in shapes(k) {
+            // choose atoms round-robin with a rotating offset so that every atom meets every position
+            for off in 0..atoms.len() {
+                let mut f: F = Vec::new();
+                let mut idx = off;
+                for n in &shape {
+                    let mut a = Vec::new();
+                    for _ in 0..*n {
+                        a.push(atoms[idx % atoms.len()].clone());
+                        idx += 3;
+                    }
+                    f.push(a);
+                }
+                all.push(f.clone());
+                // the same tree as a group inside a larger one
+                counter += 1;
+                if k < max_terms {
+                    all.push(vec![vec![atoms[counter % atoms.len()].clone(), T::Par(f.clone())]]);
+                    all.push(vec![vec![T::Par(f.clone())], vec![atoms[(counter + 1) % atoms.len()].clone()]]);
+                }
+            }
+        }
+    }
+    all
+}
+
+pub fn generate(ctx: &mut Ctx) {
+    // fixed shapes: the formerly failing one first
+    let fixed: Vec<F> = vec![
+        vec![vec![T::Has(vec!["d".into(), "b".into()]), T::Has(vec!["c".into()])]],
+        vec![vec![T::Has(vec!["a".into()])], vec![T::Has(vec!["b".into()]), T::Has(vec!["c".into()])]],
+        vec![vec![T::Par(vec![vec![T::Has(vec!["a".into()])], vec![T::Has(vec!["b".into()])]]), T::Has(vec!["c".into()])]],
+        vec![vec![T::Miss(vec!["a".into(), "b".into(), "c".into(), "d".into()]), T::Miss(vec!["and".into()])]],
+        vec![vec![T::Has(vec!["and".into()]), T::Has(vec!["or".into()])], vec![T::Has(vec!["or".into()])]],
+        vec![vec![T::Cmp("eq".into(), vec!["a".into()], Value::Ref(Ref { value: "x".into(), dis: Some("Dis \"q\"".into()) })), T::Has(vec!["b".into()])]],
+        vec![vec![T::Weq(vec!["a".into(), "b".into()], "x".into(), Some("dropped".into())), T::Rel("rel".into(), Some("sym".into()), Some(("r".into(), Some("d".into()))))]],
+        vec![vec![T::Rel("not".into(), None, None), T::Rel("a".into(), None, Some(("r".into(), None))), T::Has(vec!["z".into()])]],
+    ];
+    for f in &fixed {
+        ctx.case("rt:fixed", &format!("rt {}", show_f(f)));
+        for s in 0..4 {
+            ctx.case("sp:fixed", &format!("sp {s} {}", show_f(f)));
+        }
+    }
+    // nesting up to the parser's limit
+    for levels in [1usize, 2, 10, 62, 63] {
+        let f = nest(vec![vec![T::Has(vec!["a".into()]), T::Has(vec!["b".into(), "c".into()])]], levels);
+        ctx.case("rt:nested", &format!("rt {}", show_f(&f)));
+    }
+    // random well-formed trees: round trip, visitor, spelling
+    let n = ctx.n(2500, 120_000);
+    for _ in 0..n {
+        let mut rng = ctx.rng.fork();
+        let depth = match rng.below(10) {
+            0..=4 => 0,
+            5..=7 => 1,
+            8 => 2,
+            _ => 3,
+        };
+        let f = tree(&mut rng, depth, &literal);
+        let s = show_f(&f);
+        if s.len() > 6000 {
+            continue;
+        }
+        ctx.case("rt:random", &format!("rt {s}"));
+        if rng.chance(1, 2) {
+            ctx.case("sp:random", &format!("sp {} {s}", rng.below(1 << 30)));
+        }
+        if ends_with_bare_ref(&f) && rng.chance(1, 4) {
+            ctx.case("sp:trailing", &format!("sp {} {s}", rng.below(1 << 30)));
+        }
+    }
+    // every literal kind at least once in every comparison operator
+    for op in OPS {
+        for k in 0..40u64 {
+            let mut rng = ctx.rng.fork();
+            let _ = k;
+            let f = vec![vec![T::Cmp(op.to_string(), path(&mut rng), literal(&mut rng)), T::Has(path(&mut rng))]];
+            ctx.case("rt:literal", &format!("rt {}", show_f(&f)));
+        }
+    }
+    // arbitrary constructible trees: `to_string` fidelity for every Value kind
+    let n = ctx.n(300, 10_000);
+    for _ in 0..n {
+        let mut rng = ctx.rng.fork();
+        let any = |r: &mut Rng| gen::value(r, &Cfg::any(2));
+        let f = tree(&mut rng, 1, &any);
+        let s = show_f(&f);
+        if s.len() > 6000 || !xstr_ascii_f(&f) {
+            continue;
+        }
+        ctx.case("pr:any", &format!("pr {s}"));
+    }
+    // mutated / invalid texts
+    let n = ctx.n(2500, 120_000);
+    for _ in 0..n {
+        let mut rng = ctx.rng.fork();
+        let depth = if rng.chance(1, 3) { 1 } else { 0 };
+        let f = tree(&mut rng, depth, &literal);
+        let (text, _) = if rng.chance(1, 2) { (to_filter(&f).to_string(), f.clone()) } else { spell_top(&mut rng, &f) };
+        let mut m = mutate_text(&mut rng, &text);
+        if rng.chance(1, 3) {
+            m = mutate_text(&mut rng, &m);
+        }
+        if m.len() <= 3000 {
+            ctx.case("tx:mutant", &format!("tx {}", vx::h(&m)));
+        }
+    }
+    // thorough: every tree with up to 4 terms over a small universe, printed and in three spellings
+    if !ctx.quick() {
+        for f in enumerate_trees(4) {
+            let s = show_f(&f);
+            ctx.case("rt:enum", &format!("rt {s}"));
+            for seed in 0..3 {
+                ctx.case("sp:enum", &format!("sp {seed} {s}"));
+            }
+        }
+    }
+}
+
+fn xstr_ascii(v: &Value) -> bool {
+    match v {
+        Value::XStr(x) => x.r#type.chars().next().map_or(true, |c| c.is_ascii()),
+        Value::List(l) => l.iter().all(xstr_ascii),
+        Value::Dict(d) => d.values().all(xstr_ascii),
+        Value::Grid(g) => {
+            g.meta.as_ref().map_or(true, |m| m.values().all(xstr_ascii))
+                && g.columns.iter().all(|c| c.meta.as_ref().map_or(true, |m| m.values().all(xstr_ascii)))
+                && g.rows.iter().all(|r| r.values().all(xstr_ascii))
+        }
+        _ => true,
+    }
+}
+fn xstr_ascii_f(f: &F) -> bool {
+    f.iter().all(|a| {
+        a.iter().all(|t| match t {
+            T::Par(g) => xstr_ascii_f(g),
+            T::Cmp(_, _, v) => xstr_ascii(v),
+            _ => true,
+        })
+    })
+}
